@@ -16,7 +16,8 @@ LEVEL = 'exploration'
 CASE_TIMEOUT = 90
 BATCH_SIZE = {'quick': 6, 'thorough': 24}
 REQUIRED_COUNTERS = ['records_checked', 'runs_completed',
-                     'runs_with_slash_label_on_a_multi_child_parent']
+                     'runs_with_slash_label_on_a_multi_child_parent',
+                     'runs_choosing_over_256_children_in_one_chunk']
 RULE = ('case = (taxonomy shape, marker-table class, query encoding / '
         'normalisation / size, flatten / dropped level, chunk size, worker '
         'count, runners-up); generated from a seed, quick tier biased to '
@@ -55,6 +56,8 @@ def gen_cases(tier, seed):
         cases.append(c)
     cases += mapcases.chunk_name_order_cases(
         rng, 2 if tier == 'quick' else 8)
+    for _ in range(1 if tier == 'quick' else 3):
+        cases.append(mapcases.very_wide_case(rng))
     # stale-table class (labelled, see DESIGN 4a): C01 expects a mapping
     n_stale = 6 if tier == 'quick' else 60
     for c in mapcases.nasty_quick_cases(rng, n_stale):
@@ -229,6 +232,10 @@ def run_case(spec, work):
         counters['runs_with_out_of_order_completion'] = 1
     counters['workers_observed'] = len(order)
     m = w.model
+    if spec.get('wide_root') and r.get('json') and \
+            len({x[m.hierarchy[0]]['assignment']
+                 for x in r['json'].get('results', [])}) > 256:
+        counters['runs_choosing_over_256_children_in_one_chunk'] = 1
     if any('/' in n and len(m.children(lv, n)) > 1
            for lv in m.hierarchy[:-1] for n in m.nodes[lv]) and \
             not spec.get('flatten'):
